@@ -690,7 +690,7 @@ func run(t *testing.T, tape *simrt.Tape) *hx.Outcome {
 func TestC04(t *testing.T) {
 	hx.Main(t, hx.Prop{
 		ID:               "C04",
-		Rule:             "each run belongs to one campaign: (1) a blob built by the real builder (gzip eStargz, zstd:chunked, external-TOC incl. the external TOC itself) and mutated by 1-3 byte-level operations biased to the footer and TOC region (bit flips, maxed/zeroed runs, truncation, garbage, duplicated/deleted/swapped slices); (2) an adversarial TOC from a grammar (hard-link cycles and links to directories/ancestors/self, negative and huge sizes/offsets/chunk fields, overlapping and unsorted chunks, empty/dot/dot-dot/duplicate names, missing or malformed digests, unknown types, trees up to 12000 levels deep, odd versions, trailing whitespace) wrapped into a well-formed blob and verified with its real digest; (3) an honest blob behind a hostile transport (bogus Content-Range/Content-Length/Content-Type, odd status codes and Locations, empty or mutated bodies); (4) mutated tar/gzip handed to Build and Unpack. The layer is resolved through the full stack (both metadata stores, memory/dir caches, passthrough), mounted verified or unverified, walked with a bounded tree walk (readdir, lookup, getattr, xattrs, readlink, open, reads at extreme offsets) while Prefetch and BackgroundFetch run. Any panic, fatal error (child death under ulimit -v 8 GiB), dead loop (60 s real time) or simulated hang is a violation. non-trivial = the input was mutated or mounted; distinct = schedule hash x campaign x mutation list",
+		Rule:             "each run belongs to one campaign: (1) a blob built by the real builder (gzip eStargz, zstd:chunked, external-TOC incl. the external TOC itself) and mutated by 1-3 byte-level operations biased to the footer and TOC region (bit flips, maxed/zeroed runs, truncation, garbage, duplicated/deleted/swapped slices); (2) an adversarial TOC from a grammar (hard-link cycles and links to directories/ancestors/self, negative and huge sizes/offsets/chunk fields, overlapping and unsorted chunks, empty/dot/dot-dot/duplicate names, missing or malformed digests, unknown types, trees up to 12000 levels deep, odd versions, trailing whitespace) wrapped into a well-formed blob and verified with its real digest; (3) an honest blob behind a hostile transport (bogus Content-Range/Content-Length/Content-Type, odd status codes and Locations, empty or mutated bodies); (4) mutated tar/gzip handed to Build and Unpack. The layer is resolved through the full stack (both metadata stores, memory/dir caches, passthrough), mounted verified or unverified, walked with a bounded tree walk (readdir, lookup, getattr, xattrs, readlink, open, reads at extreme offsets) while Prefetch and BackgroundFetch run. After the walk the same cached layer is resolved and verified a second time (a second mount after prefetch and background fetch have met the bytes). Mutated gzip blobs also get crafted footers (signed / upper-case / blank-padded / extreme hex offsets, legacy footer form); passthrough runs draw merge buffer sizes that are not multiples of the chunk size and may leave the worker count unset. Any panic, fatal error (child death under ulimit -v 8 GiB), dead loop (60 s real time) or simulated hang is a violation. non-trivial = the input was mutated or mounted; distinct = schedule hash x campaign x mutation list",
 		Run:              run,
 		PanicIsViolation: true,
 		HangIsViolation:  true,
